@@ -1017,7 +1017,9 @@ class SyncObj(object):
 
                 currentNodeIdx = nextNodeIdx - 1
                 if reset:
-                    self.__raftNextIndex[node] = nextNodeIdx
+                    # A reject that points below what the node has already acknowledged is stale
+                    # (it was sent before the node caught up): never go back below matchIndex.
+                    self.__raftNextIndex[node] = max(nextNodeIdx, self.__raftMatchIndex[node] + 1)
                 if success:
                     if self.__raftMatchIndex[node] < currentNodeIdx:
                         self.__raftMatchIndex[node] = currentNodeIdx
@@ -1068,6 +1070,9 @@ class SyncObj(object):
 
     def __onNodeConnected(self, node):
         self.__connectedNodes.add(node)
+        # The node may have restarted without its log, forget what it acknowledged before
+        if node in self.__raftMatchIndex:
+            self.__raftMatchIndex[node] = 0
 
     def __onNodeDisconnected(self, node):
         self.__connectedNodes.discard(node)
